@@ -372,6 +372,9 @@ where
             OpenOptions::new().write(true).open(&self.file_path).await?;
         let mut guard = file.lock_write().await.map_err(|e| e.error)?;
         guard.write_all(&buffer).await?;
+        // The new vault may be smaller than the vault it replaces
+        // so discard any bytes after the new content
+        guard.inner_mut().set_len(buffer.len() as u64).await?;
         guard.flush().await?;
 
         Ok(())
